@@ -89,13 +89,13 @@ var participleYqRules = []*participleYqRule{
 	{"Uri", `@uri`, encodeWithIndent(UriFormat, 0), 0},
 	{"SH", `@sh`, encodeWithIndent(ShFormat, 0), 0},
 
-	{"LoadXML", `load_?xml|xml_?load`, loadOp(NewXMLDecoder(ConfiguredXMLPreferences)), 0},
+	{"LoadXML", `load_?xml|xml_?load`, loadOp(xmlLoadDecoderFactory(ConfiguredXMLPreferences)), 0},
 
-	{"LoadBase64", `load_?base64`, loadOp(NewBase64Decoder()), 0},
+	{"LoadBase64", `load_?base64`, loadOp(NewBase64Decoder), 0},
 
-	{"LoadProperties", `load_?props`, loadOp(NewPropertiesDecoder()), 0},
+	{"LoadProperties", `load_?props`, loadOp(NewPropertiesDecoder), 0},
 	simpleOp("load_?str|str_?load", loadStringOpType),
-	{"LoadYaml", `load`, loadOp(NewYamlDecoder(LoadYamlPreferences)), 0},
+	{"LoadYaml", `load`, loadOp(yamlLoadDecoderFactory(LoadYamlPreferences)), 0},
 
 	{"SplitDocument", `splitDoc|split_?doc`, opToken(splitDocumentOpType), 0},
 
@@ -554,9 +554,18 @@ func decodeOp(format *Format) yqAction {
 	return opTokenWithPrefs(decodeOpType, nil, prefs)
 }
 
-func loadOp(decoder Decoder) yqAction {
-	prefs := loadPrefs{decoder}
+func loadOp(decoderFactory func() Decoder) yqAction {
+	prefs := loadPrefs{decoderFactory}
 	return opTokenWithPrefs(loadOpType, nil, prefs)
+}
+
+// the preferences are captured when the rule table is built, as before
+func xmlLoadDecoderFactory(prefs XmlPreferences) func() Decoder {
+	return func() Decoder { return NewXMLDecoder(prefs) }
+}
+
+func yamlLoadDecoderFactory(prefs YamlPreferences) func() Decoder {
+	return func() Decoder { return NewYamlDecoder(prefs) }
 }
 
 func opToken(op *operationType) yqAction {
